@@ -32,6 +32,7 @@ import (
 //verif:opaque google.golang.org/grpc/credentials/insecure.NewCredentials
 //verif:opaque google.golang.org/grpc.NewServer
 //verif:opaque google.golang.org/grpc/encoding.RegisterCodec
+//verif:opaque github.com/relab/gorums/ordering.RegisterGorumsServer
 
 // ---------------------------------------------------------------------------
 // net
